@@ -91,7 +91,7 @@ func runUnit(u *Unit, deadline time.Time) UnitResult {
 	var last *mc.Stats
 	for _, b := range bounds {
 		clear(states)
-		st := mc.Explore(u.Cfg, mc.Opts{Bound: b, Prune: u.Prune, Deadline: deadline, States: states}, u.Body, u.Check)
+		st := mc.Explore(u.Cfg, mc.Opts{Bound: b, Prune: u.Prune, Deadline: deadline, States: states, NoRepro: u.Race, MaxViol: maxViol(u)}, u.Body, u.Check)
 		last = st
 		if len(st.Violations) > 0 || st.Diverged != "" || !st.Complete {
 			break
@@ -99,6 +99,13 @@ func runUnit(u *Unit, deadline time.Time) UnitResult {
 	}
 	total = last
 	return UnitResult{Name: u.Name, Stats: total, States: len(states), WallMS: time.Since(t0).Milliseconds()}
+}
+
+func maxViol(u *Unit) int {
+	if u.Race {
+		return 64
+	}
+	return 8
 }
 
 // Known finding entries.
@@ -243,7 +250,7 @@ func Main() {
 			cmd := exec.Command(exe, args...)
 			cmd.Env = append(os.Environ(), "GOMAXPROCS=2")
 			if p.NeedRace {
-				cmd.Env = append(cmd.Env, "GORACE=halt_on_error=0 log_path="+filepath.Join(tmp, fmt.Sprintf("race%d", i)))
+				cmd.Env = append(cmd.Env, "GORACE=halt_on_error=0 exitcode=0 log_path="+filepath.Join(tmp, fmt.Sprintf("race%d", i)))
 			}
 			outb, err := cmd.CombinedOutput()
 			if err != nil {
